@@ -984,24 +984,37 @@ tsk_calloc(tsk_size_t n, size_t size)
 void *
 tsk_memset(void *ptr, int fill, tsk_size_t size)
 {
+    /* Passing NULL to the mem* functions is undefined, even for zero bytes */
+    if (size == 0) {
+        return ptr;
+    }
     return memset(ptr, fill, (size_t) size);
 }
 
 void *
 tsk_memcpy(void *dest, const void *src, tsk_size_t size)
 {
+    if (size == 0) {
+        return dest;
+    }
     return memcpy(dest, src, (size_t) size);
 }
 
 void *
 tsk_memmove(void *dest, const void *src, tsk_size_t size)
 {
+    if (size == 0) {
+        return dest;
+    }
     return memmove(dest, src, (size_t) size);
 }
 
 int
 tsk_memcmp(const void *s1, const void *s2, tsk_size_t size)
 {
+    if (size == 0) {
+        return 0;
+    }
     return memcmp(s1, s2, (size_t) size);
 }
 
